@@ -107,6 +107,10 @@ def run_scenario(run: Run, scen: dict, rng: random.Random):
         cls, res = err_class(lambda: SF.differentiate(sc, order=k))
         expected = "structural" if not sd_ok else ("value" if k <= 0 else "ok")
         pre = precheck(sc, "differentiate", order=k)
+        if expected == "ok" and cls in ("signature_not_found", "other:OperatorSignatureNotFound"):
+            # no differentiation rule for a layer of the circuit (e.g. a constant layer): a refusal, not a result
+            run.feature("no_rule_refusal", "differentiate")
+            return
         if cls != expected:
             run.violation("differentiate-refusal", scen, f"differentiate: error class {cls}, expected {expected} (order={k})")
             return
@@ -206,6 +210,27 @@ def run_scenario(run: Run, scen: dict, rng: random.Random):
         pre = precheck(sc, "query")
         if pre != expected:
             run.violation("model-precheck", scen, f"model predicts {pre}, definitions say {expected}", no_failing_input=True, broken="correspondence SCirc.queryPre")
+            return
+        # arguments of the marginal query: variables outside the scope (in a gap of the numbering or beyond it) are refused
+        if sd_ok and all(d["t"] != "constv" for d in spec["layers"]):
+            import common
+            import torch
+            vs = list(spec["vars"])
+            x = torch.as_tensor(common.input_array(gen.gen_inputs(rng, spec, 2), spec))
+            q = IntegrateQuery(tc)
+            holes = [v for v in range(max(vs)) if v not in vs]
+            bad = rng.choice(holes) if holes and rng.random() < 0.7 else max(vs) + rng.choice([1, 2])
+            good = rng.sample(vs, rng.randint(1, len(vs)))
+            cases = [(Scope(good), "ok"), (Scope(good + [bad]), "value"), ([Scope(good), Scope([bad])], "value")]
+            for arg, want in cases:
+                cls, _ = err_class(lambda: q(x, integrate_vars=arg))
+                run.evaluations += 1
+                if want == "ok" and cls != "value":
+                    continue  # layers without an integration rule refuse with TypeError: not an argument error
+                if cls != want:
+                    run.violation("query-argument", dict(scen, integrate_vars=str(arg)),
+                                  f"IntegrateQuery over scope {vs} with integrate_vars={arg}: error class {cls}, expected {want}")
+                    return
 
 
 def check(run: Run, tier: str, seed: int):
@@ -246,7 +271,9 @@ def check(run: Run, tier: str, seed: int):
                 if r < 0.15:
                     scen["vars"] = []
                 elif r < 0.3:
-                    scen["vars"] = sorted(set(srng.sample(vs, srng.randint(1, len(vs))) + [max(vs) + srng.choice([1, 2])]))
+                    holes = [v for v in range(max(vs)) if v not in vs]
+                    bad = srng.choice(holes) if holes and srng.random() < 0.5 else max(vs) + srng.choice([1, 2])
+                    scen["vars"] = sorted(set(srng.sample(vs, srng.randint(1, len(vs))) + [bad]))
                 else:
                     scen["vars"] = sorted(srng.sample(vs, srng.randint(1, len(vs))))
             elif op == "differentiate":
@@ -255,7 +282,8 @@ def check(run: Run, tier: str, seed: int):
                 r = srng.random()
                 zs = [] if r < 0.15 else srng.sample(vs, srng.randint(1, len(vs)))
                 if 0.15 <= r < 0.3:
-                    zs = zs + [max(vs) + 1]
+                    holes = [v for v in range(max(vs)) if v not in vs]
+                    zs = zs + [srng.choice(holes) if holes and srng.random() < 0.5 else max(vs) + 1]
                 scen["obs"] = {str(v): (srng.randrange(spec["states"].get(str(v), 2))) for v in zs}
             elif op == "multiply":
                 if srng.random() < 0.5:
